@@ -5,6 +5,9 @@ import OmbottModel.Lemmas.RouterIns
 import OmbottModel.Lemmas.RouterResolve
 import OmbottModel.Lemmas.RouterParse
 import OmbottModel.Lemmas.RouterPrint
+import OmbottModel.Lemmas.RouterSound
+import OmbottModel.Model.RouterBuiltin
+import OmbottModel.Gen.Routerbuiltin
 /-!
 C01 — Route resolution equals the plain rule-by-rule semantics.
 Property theorems only; helper lemmas live in `Lemmas/Router*.lean`.
@@ -195,6 +198,101 @@ theorem filter_guard (upper : Str → Str) (ops : List Op) (hok : ∀ op ∈ ops
   obtain ⟨f, s, r, _, h2, h3, h4, h5⟩ := matchRule_vals hm v hv
   exact ⟨f, s, r, h2, h3, h4, h5⟩
 
+/-- **Soundness for every filter environment, `rex` selectors included.**  Whatever the filters
+answer (no `NoSel` hypothesis, no well-formedness needed), a hit of `RadiDict.get` is a rule held
+by the tree whose pattern matches the path in the selector-aware sense `MatchSel` (after a
+wildcard whose filter answered with selector `s`, the rest of the pattern matches the remaining
+text or `str(s)` + the remaining text), with exactly the values the filters answered. -/
+theorem get_sound (env : FilterEnv) (t : Node) (path : Str) (d : Nat) (keys : List Str) (vs : List Val)
+    (h : (treeGet env t path).core = some (d, keys, vs)) :
+    ∃ rule ∈ denote t, rule.data = d ∧ rule.keys = keys ∧ MatchSel env rule.pat path vs := by
+  obtain ⟨rule, hm, h1, h2, vs', h3, h4⟩ := getN_sound env t _ path d keys vs h
+  simp only [List.nil_append] at h3
+  subst h3
+  exact ⟨rule, hm, h1, h2, h4⟩
+
+/-- **No handler without a match, for every filter environment.**  After any history, if
+`resolve` hands a request to a handler then the rule text that handler was registered with
+matches the path (selector-aware), the kwargs are that rule's own names zipped with the values
+of that match, and every value is what the filter of one of the rule's wildcards answered on a
+non-empty piece of text: a text the filter rejects never reaches a handler, `rex` included. -/
+theorem handler_called_only_on_match (upper : Str → Str) (ops : List Op) (hok : ∀ op ∈ ops, OpOK op)
+    (env : FilterEnv) (path : Str) (ms : List Str)
+    (h : Nat) (mname : Str) (kw : List (Str × Val)) (hooks : List (Nat × HookPair))
+    (hres : (Router.run upper ops).resolve env path ms = .found h mname kw hooks) :
+    ∃ cenv a p vs, Op.add cenv a ∈ ops ∧ a.handler = h ∧ mname ∈ a.methods.map upper ∧
+      parseRule cenv a.rule = .ok p ∧ MatchSel env p.syms (stripSlash path) vs ∧
+      kw = makeParamsDict p.params vs ∧
+      ∀ k v, (k, v) ∈ kw → ∃ f s r, Sym.tok f ∈ p.syms ∧ s ≠ [] ∧ tokRes env f s = some r ∧ r.val = v := by
+  have hinv := run_inv upper ops hok
+  have hent := run_entries upper ops hok
+  generalize Router.run upper ops = R at hinv hent hres
+  unfold Router.resolve at hres
+  cases hg : treeGet env R.tree (stripSlash path) with
+  | miss v hh p => rw [hg] at hres; cases hres
+  | hit id keys vals hk =>
+    rw [hg] at hres
+    simp only at hres
+    obtain ⟨rule, hmem, rfl, rfl, hms⟩ :=
+      get_sound env R.tree (stripSlash path) id keys vals (by rw [hg]; rfl)
+    obtain ⟨ps, id', r, _, hr, heq⟩ := (mem_rules R _).mp ((hinv.den _).mp hmem)
+    subst heq
+    simp only [hr] at hres
+    cases hgi : r.getItem ms with
+    | error e => rw [hgi] at hres; cases hres
+    | ok m =>
+      rw [hgi] at hres
+      simp only [Resolved.found.injEq] at hres
+      obtain ⟨rfl, rfl, rfl, _⟩ := hres
+      obtain ⟨name, hmm⟩ := getItem_mem hgi
+      obtain ⟨op, hop, hst⟩ := hent _ r name m hr hmm
+      cases op with
+      | removeMethod _ _ => exact hst.elim
+      | add cenv a =>
+        obtain ⟨p, hp, hps, hname, rfl⟩ := hst
+        have hkw : makeParamsDict (if p.params.isEmpty = true then r.params else p.params) vals =
+            makeParamsDict p.params vals := by
+          split
+          · rename_i hemp
+            have hnil : p.params = [] := by simpa using hemp
+            have hlen := parseRule_params_len hp
+            have hvs := hms.length
+            have htc : ∀ q : List Sym, tokCount q = countToks q := by
+              intro q; induction q with
+              | nil => rfl
+              | cons x xs ih => cases x <;> simp [tokCount, countToks, ih]
+            rw [hnil] at hlen
+            simp only at hvs
+            rw [← hps, htc, ← hlen] at hvs
+            have : vals = [] := List.eq_nil_of_length_eq_zero hvs
+            rw [this, hnil, makeParamsDict_nil_vals, makeParamsDict_nil_vals]
+          · rfl
+        refine ⟨cenv, a, p, vals, hop, rfl, hname, hp, by rw [hps]; exact hms, hkw, ?_⟩
+        intro k v hkv
+        rw [hkw] at hkv
+        have hv : v ∈ vals := (List.of_mem_zip (makeParamsDict_mem hkv).1).2
+        obtain ⟨f, s, r', h1, h2, h3, h4⟩ := hms.vals v hv
+        exact ⟨f, s, r', by rw [hps]; exact h1, h2, h3, h4⟩
+
+/-- **Built-in filters, mask texts.**  The regular expressions `FilterFactory.filters` builds for
+`int`, `float` and `path` (for the probed configurations, regex metacharacters in the following
+literal included) are the documented ones: `path` looks ahead for the following literal text
+escaped, i.e. taken literally.  Regenerated from the live module on every run. -/
+theorem builtin_masks_pinned :
+    (Gen.builtinMasks.all fun m =>
+      Builtin.expectedMask m.1.toList m.2.1.toList == m.2.2.toList) = true := by
+  decide +kernel
+
+/-- **Built-in filters, behaviour.**  On the probe table taken from the live handlers on every
+run (signs, leading zeros, exponent-like text, decoy occurrences of the literal after a `path`
+wildcard, literals made of regex metacharacters) the handlers of `int`, `float`, `path` answer
+exactly what the reference semantics `Builtin.builtin` says: value and characters consumed. -/
+theorem builtin_probes_agree :
+    (Gen.builtinProbes.all fun p =>
+      Builtin.builtin p.1.toList p.2.1.toList p.2.2.1.toList ==
+        p.2.2.2.map fun r => (r.1.toList, r.2)) = true := by
+  decide +kernel
+
 /-- "not found" is answered exactly when the tree lookup finds no route -/
 theorem resolve_notFound_iff_miss (env : FilterEnv) (R : Router) (path : Str) (ms : List Str) :
     (∃ v h p, R.resolve env path ms = .notFound v h p) ↔
@@ -318,6 +416,31 @@ example : printRule nvSegs = "/a/<x:int>-{y.re(b+)}/:z".toList ∧ SegsOK nvSegs
     · intro f hf; cases hf; exact ⟨rfl, by decide⟩
     · intro f hf; cases hf; exact ⟨rfl, by decide⟩
     · intro f hf; cases hf
+
+/-- a `rex` filter with two groups: answers with a selector -/
+def nvEnvSel : FilterEnv := fun f s =>
+  if f = "rex((a)|(b))".toList then
+    match s with
+    | 'a' :: _ => some ⟨.str ['a'], 1, some 1⟩
+    | 'b' :: _ => some ⟨.str ['b'], 1, some 2⟩
+    | _ => none
+  else none
+
+def nvOpsSel : List Op :=
+  [ .add nvCenv { rule := "/<x.rex((a)|(b))[1]>z".toList, methods := ["GET".toList], handler := 0 },
+    .add nvCenv { rule := "/<y.rex((a)|(b))>b".toList, methods := ["GET".toList], handler := 1 } ]
+
+/-- `get_sound`, `handler_called_only_on_match`: the selector route (`str(1) + "z"` against the
+pattern text `1z`) and the fall-back on the text itself -/
+example : (∀ op ∈ nvOpsSel, OpOK op) ∧
+    (Router.run asciiUpper nvOpsSel).resolve nvEnvSel "/az".toList ["GET".toList] =
+      .found 0 "GET".toList [("x".toList, .str ['a'])] [] ∧
+    (Router.run asciiUpper nvOpsSel).resolve nvEnvSel "/bb".toList ["GET".toList] =
+      .found 1 "GET".toList [("y".toList, .str ['b'])] [] := by
+  refine ⟨?_, by decide +kernel, by decide +kernel⟩
+  intro op hop
+  simp only [nvOpsSel, List.mem_cons, List.not_mem_nil, or_false] at hop
+  rcases hop with rfl | rfl <;> exact rule_without_marker_ok _ _ (by decide)
 
 /-- the filter rejects: not found -/
 example : (Router.run asciiUpper nvOps).resolve nvEnv "/a/x".toList ["POST".toList, "ANY".toList] =
